@@ -367,90 +367,75 @@ func parseExpr(ctx *Context, e ast.Expr) *pattern {
 // MatchIdentical returns true if the go typ matches pattern p.
 func (p *Pattern) MatchIdentical(state *MatcherState, typ types.Type) bool {
 	state.reset()
-	return p.matchIdentical(state, p.root, typ)
+	return p.matchIdentical(state, p.root, typ, matched)
 }
 
-func (p *Pattern) matchIdenticalFielder(state *MatcherState, subs []*pattern, f fielder) bool {
-	// TODO: do backtracking.
+// matched is the continuation of a complete match.
+func matched() bool { return true }
 
-	numFields := f.NumFields()
-	fieldsMatched := 0
-
-	if len(subs) == 0 && numFields != 0 {
+// matchFields reports whether the fields of f from index pos on match subs
+// and the rest of the match (next) succeeds with the bindings made on the way.
+// A $*_ stands for any run of fields: every split point is tried in turn.
+func (p *Pattern) matchFields(state *MatcherState, subs []*pattern, f fielder, pos int, next func() bool) bool {
+	if len(subs) == 0 {
+		return pos == f.NumFields() && next()
+	}
+	if subs[0].op == opVarSeq {
+		for i := pos; i <= f.NumFields(); i++ {
+			if p.matchFields(state, subs[1:], f, i, next) {
+				return true
+			}
+		}
 		return false
 	}
-
-	matchAny := false
-
-	i := 0
-	for i < len(subs) {
-		pat := subs[i]
-
-		if pat.op == opVarSeq {
-			matchAny = true
-		}
-
-		fieldsLeft := numFields - fieldsMatched
-		if matchAny {
-			switch {
-			// "Nothing left to match" stop condition.
-			case fieldsLeft == 0:
-				matchAny = false
-				i++
-			// Lookahead for non-greedy matching.
-			case i+1 < len(subs) && p.matchIdentical(state, subs[i+1], f.Field(fieldsMatched).Type()):
-				matchAny = false
-				i += 2
-				fieldsMatched++
-			default:
-				fieldsMatched++
-			}
-			continue
-		}
-
-		if fieldsLeft == 0 || !p.matchIdentical(state, pat, f.Field(fieldsMatched).Type()) {
-			return false
-		}
-		i++
-		fieldsMatched++
+	if pos == f.NumFields() {
+		return false
 	}
-
-	return numFields == fieldsMatched
+	return p.matchIdentical(state, subs[0], f.Field(pos).Type(), func() bool {
+		return p.matchFields(state, subs[1:], f, pos+1, next)
+	})
 }
 
-func (p *Pattern) matchIdentical(state *MatcherState, sub *pattern, typ types.Type) bool {
+// matchIdentical reports whether typ matches sub and the rest of the match
+// (next) succeeds with the bindings made on the way; the bindings of
+// an attempt that failed are undone, so that a caller can try another one.
+func (p *Pattern) matchIdentical(state *MatcherState, sub *pattern, typ types.Type, next func() bool) bool {
 	switch sub.op {
 	case opVar:
 		name := sub.value.(string)
 		if name == "_" {
-			return true
+			return next()
 		}
 		y, ok := state.typeMatches[name]
 		if !ok {
 			state.typeMatches[name] = typ
-			return true
+			if next() {
+				return true
+			}
+			delete(state.typeMatches, name)
+			return false
 		}
 		if y == nil {
-			return typ == nil
+			return typ == nil && next()
 		}
-		return xtypes.Identical(typ, y)
+		return xtypes.Identical(typ, y) && next()
 
 	case opBuiltinType:
-		return xtypes.Identical(typ, sub.value.(types.Type))
+		return xtypes.Identical(typ, sub.value.(types.Type)) && next()
 
 	case opPointer:
 		typ, ok := typ.(*types.Pointer)
 		if !ok {
 			return false
 		}
-		return p.matchIdentical(state, sub.subs[0], typ.Elem())
+		return p.matchIdentical(state, sub.subs[0], typ.Elem(), next)
 
 	case opSlice:
 		typ, ok := typ.(*types.Slice)
 		if !ok {
 			return false
 		}
-		return p.matchIdentical(state, sub.subs[0], typ.Elem())
+		return p.matchIdentical(state, sub.subs[0], typ.Elem(), next)
 
 	case opArray:
 		typ, ok := typ.(*types.Array)
@@ -469,20 +454,25 @@ func (p *Pattern) matchIdentical(state *MatcherState, sub *pattern, typ types.Ty
 				wantLen = length
 			} else {
 				state.int64Matches[v] = typ.Len()
-				wantLen = typ.Len()
+				if p.matchIdentical(state, sub.subs[0], typ.Elem(), next) {
+					return true
+				}
+				delete(state.int64Matches, v)
+				return false
 			}
 		case int64:
 			wantLen = v
 		}
-		return wantLen == typ.Len() && p.matchIdentical(state, sub.subs[0], typ.Elem())
+		return wantLen == typ.Len() && p.matchIdentical(state, sub.subs[0], typ.Elem(), next)
 
 	case opMap:
 		typ, ok := typ.(*types.Map)
 		if !ok {
 			return false
 		}
-		return p.matchIdentical(state, sub.subs[0], typ.Key()) &&
-			p.matchIdentical(state, sub.subs[1], typ.Elem())
+		return p.matchIdentical(state, sub.subs[0], typ.Key(), func() bool {
+			return p.matchIdentical(state, sub.subs[1], typ.Elem(), next)
+		})
 
 	case opChan:
 		typ, ok := typ.(*types.Chan)
@@ -490,7 +480,7 @@ func (p *Pattern) matchIdentical(state *MatcherState, sub *pattern, typ types.Ty
 			return false
 		}
 		dir := sub.value.(types.ChanDir)
-		return dir == typ.Dir() && p.matchIdentical(state, sub.subs[0], typ.Elem())
+		return dir == typ.Dir() && p.matchIdentical(state, sub.subs[0], typ.Elem(), next)
 
 	case opNamed:
 		typ, ok := typ.(*types.Named)
@@ -516,7 +506,7 @@ func (p *Pattern) matchIdentical(state *MatcherState, sub *pattern, typ types.Ty
 		} else {
 			objPath = strings.TrimPrefix(objPath, "vendor/")
 		}
-		return objPath == pkgPath
+		return objPath == pkgPath && next()
 
 	case opFuncNoSeq:
 		typ, ok := typ.(*types.Signature)
@@ -532,17 +522,9 @@ func (p *Pattern) matchIdentical(state *MatcherState, sub *pattern, typ types.Ty
 		if typ.Results().Len() != len(results) {
 			return false
 		}
-		for i := 0; i < typ.Params().Len(); i++ {
-			if !p.matchIdentical(state, params[i], typ.Params().At(i).Type()) {
-				return false
-			}
-		}
-		for i := 0; i < typ.Results().Len(); i++ {
-			if !p.matchIdentical(state, results[i], typ.Results().At(i).Type()) {
-				return false
-			}
-		}
-		return true
+		return p.matchFields(state, params, &tupleFielder{x: typ.Params()}, 0, func() bool {
+			return p.matchFields(state, results, &tupleFielder{x: typ.Results()}, 0, next)
+		})
 
 	case opFunc:
 		typ, ok := typ.(*types.Signature)
@@ -552,15 +534,9 @@ func (p *Pattern) matchIdentical(state *MatcherState, sub *pattern, typ types.Ty
 		numParams := sub.value.(int)
 		params := sub.subs[:numParams]
 		results := sub.subs[numParams:]
-		adapter := tupleFielder{x: typ.Params()}
-		if !p.matchIdenticalFielder(state, params, &adapter) {
-			return false
-		}
-		adapter.x = typ.Results()
-		if !p.matchIdenticalFielder(state, results, &adapter) {
-			return false
-		}
-		return true
+		return p.matchFields(state, params, &tupleFielder{x: typ.Params()}, 0, func() bool {
+			return p.matchFields(state, results, &tupleFielder{x: typ.Results()}, 0, next)
+		})
 
 	case opStructNoSeq:
 		typ, ok := typ.(*types.Struct)
@@ -570,26 +546,18 @@ func (p *Pattern) matchIdentical(state *MatcherState, sub *pattern, typ types.Ty
 		if typ.NumFields() != len(sub.subs) {
 			return false
 		}
-		for i, member := range sub.subs {
-			if !p.matchIdentical(state, member, typ.Field(i).Type()) {
-				return false
-			}
-		}
-		return true
+		return p.matchFields(state, sub.subs, typ, 0, next)
 
 	case opStruct:
 		typ, ok := typ.(*types.Struct)
 		if !ok {
 			return false
 		}
-		if !p.matchIdenticalFielder(state, sub.subs, typ) {
-			return false
-		}
-		return true
+		return p.matchFields(state, sub.subs, typ, 0, next)
 
 	case opAnyInterface:
 		_, ok := typ.(*types.Interface)
-		return ok
+		return ok && next()
 
 	default:
 		return false
